@@ -247,6 +247,7 @@ def dag_to_cpdag(G):
 
     # now construct CPDAG
     cpdag = pg.CPDAG()
+    cpdag.add_nodes_from(G.nodes)
 
     # for all compelled edges, add a directed edge
     compelled_edges = [
